@@ -25,6 +25,8 @@ class FamilyResult:
         self.build_wall = 0.0
         self.run_wall = 0.0
         self.dumps = {}
+        self.ws = None
+        self.batches = []
 
 
 def split_batches(programs, nb):
@@ -211,4 +213,65 @@ def replay_family(tag, programs, ctors=(0,), clone_points=False, workers=8, opt_
         fr.samples.append({"program": byid[rp["p"]].body(), "input": rp["inp"],
                            "script": rp["script"], "expected_events": rp["ev"]})
     fr.ws = ws
+    fr.batches = batches
     return fr
+
+
+def run_requests(ws, batches, reqs, tag, timeout=1200):
+    """Run requests (dicts with p, inp, ...) on the batch binaries; returns list of result dicts
+    in request order (None where the runner produced nothing)."""
+    d = os.path.join(BUILD, tag)
+    cmds, outs = [], []
+    for i, r in enumerate(reqs):
+        r["i"] = i
+    for bi, (name, batch) in enumerate(zip(ws.crates, batches)):
+        ids = {p.id for p in batch}
+        rq = os.path.join(d, "freq_%d.ndjson" % bi)
+        rs = os.path.join(d, "fres_%d.ndjson" % bi)
+        with open(rq, "w") as f:
+            for r in reqs:
+                if r["p"] in ids:
+                    f.write(json.dumps(r, separators=(",", ":")))
+                    f.write("\n")
+        if os.path.exists(rs):
+            os.remove(rs)
+        cmds.append([ws.binary(name), rq, rs])
+        outs.append(rs)
+    rcs = run_parallel(cmds, timeout=timeout)
+    results = [None] * len(reqs)
+    for rc, rs, cmd in zip(rcs, outs, cmds):
+        done = False
+        if os.path.exists(rs):
+            with open(rs) as f:
+                for line in f:
+                    r = json.loads(line)
+                    if r.get("done"):
+                        done = True
+                        continue
+                    results[r["i"]] = r
+        if not done and rc != 98:
+            raise ToolError("batch runner %s died (rc=%s) without finishing" % (cmd[0], rc))
+    return results
+
+
+def validate_traces(tag, programs, runs, workers=8, timeout=1500):
+    """Implementation -> specification: TLC accepts each recorded run only if it is a behaviour
+    of RefLexer (Trace_RefLexer.tla).  runs: dicts with i, p, inp, ev.  Returns (tlc result,
+    set of accepted run indices)."""
+    d = ensure_dir(os.path.join(BUILD, tag))
+    pj = os.path.join(d, "tprogs.json")
+    with open(pj, "w") as f:
+        json.dump([p.to_json() for p in programs], f)
+    tj = os.path.join(d, "trace.ndjson")
+    with open(tj, "w") as f:
+        for r in runs:
+            f.write(json.dumps({"i": r["i"], "p": r["p"], "inp": r["inp"], "ev": r["ev"]},
+                               separators=(",", ":")))
+            f.write("\n")
+    res = run_tlc("Trace_RefLexer.tla", "Trace_RefLexer.cfg",
+                  env={"VERIF_PROGS": pj, "VERIF_TRACE": tj}, workers=workers, timeout=timeout,
+                  tag=tag + "_trace")
+    if not res.ok:
+        raise ToolError("TLC failed on the trace specification (%s):\n%s" % (tag, res.error))
+    accepted = {a["i"] for a in res.tagged.get("ACCEPT", [])}
+    return res, accepted
